@@ -83,6 +83,10 @@ IsEndOp == l > 1 /\ Obs.ev = "op" /\ Obs.e \in {1, 2} /\ ~Obs.panic
 DiffFields == LET p == ProjK(kk[Obs.e]) IN
               { <<f, "spec", p[f], "code", Obs.st[f]>> : f \in {g \in DOMAIN p : g \notin DOMAIN Obs.st \/ Obs.st[g] # p[g]} }
 StateConforms == IsEndOp => (Obs.st = ProjK(kk[Obs.e]) \/ ~PrintT(<<"DIFF", l - 1, DiffFields>>))
+(* the library's process-wide SNMP counters grow exactly as the specification's history counters of the two endpoints do *)
+SnmpOf == [lost |-> kk[1].lost + kk[2].lost, retrans |-> kk[1].retrans + kk[2].retrans, repeat |-> kk[1].repeat + kk[2].repeat]
+SnmpConforms  == IsEndOp => (/\ Obs.snmp.lost = SnmpOf.lost /\ Obs.snmp.retrans = SnmpOf.retrans /\ Obs.snmp.repeat = SnmpOf.repeat)
+                            \/ ~PrintT(<<"SNMP", l - 1, SnmpOf, Obs.snmp>>)
 RetConforms   == IsEndOp => Obs.ret = ret
 OutConforms   == IsEndOp => Obs.out = ProjOut(out)
 =============================================================================
